@@ -814,4 +814,4 @@ META["C09"] = {"level": "bounded model checking, small scope: suffix.Sort execut
 
 
 # thorough bounds that ran clean (exit 0) on the unchanged tree; the others are defined above but not registered
-THOROUGH_VALIDATED = {"C01", "C02", "C03", "C04", "C05", "C06", "C07", "C08", "C09", "C10", "C12", "C14", "C15", "C16", "C17", "C18", "C20"}  # C02, C03: their thorough job sets are subsets of the C01 run (all assertions are evaluated in every run)
+THOROUGH_VALIDATED = {"C01", "C02", "C03", "C11", "C04", "C05", "C06", "C07", "C08", "C09", "C10", "C12", "C14", "C15", "C16", "C17", "C18", "C20"}  # C02, C03: their thorough job sets are subsets of the C01 run (all assertions are evaluated in every run)
